@@ -67,3 +67,22 @@ Example C13_count_example :
   let grp := Err [KStr "a"] (SP [KStr "a"; KStr "schema"]) 130 (Some "schema"%string) VNone VNone [] [lg] in
   nmsgs current (S (err_depth grp)) 0 grp = 3%nat /\ rt_count (fst (render current [grp])) = 3%nat.
 Proof. vm_compute. split; reflexivity. Qed.
+
+(* "its top-level keys are exactly the first document-path elements of the recorded errors": for any error list and
+   any nesting, a key is at the top of the errors property iff it is the first document-path element of a recorded
+   error that contributes a message (by C13_count_rule: every *of error, every group error with a contributing
+   child, every other error whose code has a message template) *)
+Theorem C13_top_level_keys : forall errs k, Forall (fun e => e_dp e <> []) errs ->
+  (In k (rt_keys (fst (render current errs))) <->
+   exists e p, In e errs /\ e_dp e = k :: p /\ (0 < nmsgs current (S (err_depth e)) 0 e)%nat).
+Proof. exact (render_keys current). Qed.
+Print Assumptions C13_top_level_keys.
+
+Example C13_keys_example :
+  let leaf := Err [KStr "b"] (SP [KStr "b"; KStr "type"]) 36 (Some "type"%string) VNone VNone [] [] in
+  let sub := Err [KStr "a"; KStr "x"] (SP [KStr "a"; KStr "schema"; KStr "x"; KStr "min"]) 66 (Some "min"%string) VNone VNone [] [] in
+  let grp := Err [KStr "a"] (SP [KStr "a"; KStr "schema"]) 129 (Some "schema"%string) VNone VNone [] [sub] in
+  let empty_grp := Err [KStr "c"] (SP [KStr "c"; KStr "schema"]) 129 (Some "schema"%string) VNone VNone [] [] in
+  rt_keys (fst (render current [leaf; grp; empty_grp])) = [KStr "b"; KStr "a"] /\
+  nmsgs current (S (err_depth empty_grp)) 0 empty_grp = 0%nat.
+Proof. vm_compute. split; reflexivity. Qed.
